@@ -1061,6 +1061,31 @@ class Monitor(object):
             return self.viol(E, "components-on-several-namespaces", "after unification the components refer to %d namespaces" % len(nss))
         if tgt is not None and nss and nss[0] is not tgt:
             return self.viol(E, "components-not-on-given-namespace", "components were not moved to the namespace passed in")
+        # "items with equal labels end up on one and the same taxon": after a unification every label that the data set's
+        # components refer to sits on ONE taxon object - also when the target namespace itself held several members with
+        # that label, and also for components that lived in the target already (seeded change C11d: those were skipped).
+        if nss:
+            cf = canon_fn(bool(nss[0].is_case_sensitive))
+            seen = {}
+            for c in comps:
+                pairs = []
+                if id(c) in post.lists:
+                    for t in post.lists[id(c)][2]:
+                        ent_t = post.trees.get(id(t))
+                        if ent_t is not None:
+                            pairs.extend((x[2], x[1]) for x in ent_t[2] if x[1] is not None)
+                elif id(c) in post.mats:
+                    pairs.extend((r[1], r[0]) for r in post.mats[id(c)][2])
+                for label, taxon in pairs:
+                    if label is None:
+                        continue
+                    k = cf(label)
+                    prev = seen.setdefault(k, taxon)
+                    if prev is not taxon:
+                        return self.viol(E, "one-label-on-several-taxa-after-unification",
+                                         "label %r is referred to through %d different taxon objects by the data set's components"
+                                         % (label, 2))
+            self.ctx.ev("unify-one-taxon-per-label-judged")
         return True
 
     def check_items(self, E, pre, post, items):
